@@ -1,6 +1,6 @@
 From Coq Require Import ZArith List Bool Reals Lra.
 From Flocq Require Import Core BinarySingleNaN.
-Require Import GV.FloatBase GV.FloatLemmas GV.AngleM GV.AngleProofs GV.GeonumM GV.GeonumProofs GV.CollM GV.ShiftProofs GV.ShiftResults.
+Require Import GV.FloatBase GV.FloatLemmas GV.AngleM GV.AngleProofs GV.GeonumM GV.GeonumProofs GV.CollM GV.ShiftProofs GV.ShiftResults GV.NewProofs GV.CtorProofs GV.ClosureProofs GV.SumUpper GV.PiBounds GV.TrigProofs GV.DotValue GV.DistValue GV.DirProofs GV.SumDir GV.ShiftSum.
 Open Scope Z_scope.
 Require Import GV.Properties.C08.
 Check C08_sub_shift : forall a b a' b',
@@ -37,3 +37,26 @@ Print Assumptions C08_project_result.
 Check C08_shift_def : forall n a g, shift4 n a = {| rem := rem a; blade := blade a + 4 * n |} /\
   gshift4 n g = {| mag := mag g; ang := shift4 n (ang g) |}.
 Print Assumptions C08_shift_def.
+Check C08_direction_shift : forall n a, dir (shift4 n a) = dir a.
+Print Assumptions C08_direction_shift.
+Check C08_sum_cartesian : forall (L : libm) (u u2 : R) a b m n, cos_acc L u -> sin_acc L u -> atan2_acc L u2 -> (u <= / 1000)%R ->
+  let a' := gshift4 m a in let b' := gshift4 n b in
+  canonp (rem (ang a)) -> canonp (rem (ang b)) ->
+  aeqb (ang a') (ang b') = false ->
+  aeqb (add_vv (ang a') (new one one)) (ang b') || aeqb (add_vv (ang b') (new one one)) (ang a') = false ->
+  (0 <= blade (ang a') + blade (ang b') < 2 ^ 40)%Z ->
+  fin (gadd_rad L a' b') ->
+  fin (fadd (fmul (mag a') (sinF L (grade_angle (ang a')))) (fmul (mag b') (sinF L (grade_angle (ang b'))))) ->
+  fin (fadd (fmul (mag a') (cosF L (grade_angle (ang a')))) (fmul (mag b') (cosF L (grade_angle (ang b'))))) ->
+  let r := gadd_vv L a' b' in
+  (let Vx := R_ (mag a) * cos (dir (ang a)) + R_ (mag b) * cos (dir (ang b)) in
+  let Vy := R_ (mag a) * sin (dir (ang a)) + R_ (mag b) * sin (dir (ang b)) in
+  let M := Rabs (R_ (mag a)) + Rabs (R_ (mag b)) in
+  let E := M * (u + 3 / 1000000000000000) + 4 * bpow radix2 (-1075) in
+  let S := R_ (mag a) * R_ (mag a) + R_ (mag b) * R_ (mag b) in
+  let Bnd := S * (u + 1 / 100000000000000) + 10 * bpow radix2 (-1075) in
+  let tolN := R_ eps10 + 3 / 100000000000000 + IZR (blade (ang a') + blade (ang b')) * (4 / 1000000000000000) in
+  let T := sqrt Bnd * (1 + / 9007199254740992) + / 9007199254740992 * sqrt (Vx * Vx + Vy * Vy) + bpow radix2 (-1075)
+           + 3 * E + (M + 2 * E) * (u2 + tolN) in
+  Rabs (R_ (mag r) * cos (dirR (ang r)) - Vx) <= T /\ Rabs (R_ (mag r) * sin (dirR (ang r)) - Vy) <= T)%R.
+Print Assumptions C08_sum_cartesian.
